@@ -2,7 +2,10 @@ module verifharness
 
 go 1.22.7
 
-require github.com/protomaps/go-pmtiles v0.0.0
+require (
+	github.com/protomaps/go-pmtiles v0.0.0
+	zombiezen.com/go/sqlite v1.1.2
+)
 
 require (
 	cloud.google.com/go v0.115.0 // indirect
@@ -77,7 +80,6 @@ require (
 	modernc.org/mathutil v1.6.0 // indirect
 	modernc.org/memory v1.7.2 // indirect
 	modernc.org/sqlite v1.29.1 // indirect
-	zombiezen.com/go/sqlite v1.1.2 // indirect
 )
 
 replace github.com/protomaps/go-pmtiles => /repo
